@@ -614,6 +614,32 @@ def _classify_value(eng, fd, pl, bi, line, depth, payload=False, _def=None):
             g = Gate('multi', 'option-combinator:' + short, [set().union(*[q.all_atoms() for q in subs])], body.path, bi, line)
             g.args = subs
             return g
+        # `a.cmp(&b) == Ordering::Less` / `x.cmp_abs(&n) != Ordering::Less`: the test is the ordering call itself (which way it has to come out is
+        # in the constant it is compared with); classified as that call so that the rules see an order comparison of a with b
+        if callee in ('std::cmp::PartialEq::eq', 'std::cmp::PartialEq::ne') and len(x['args']) == 2 and depth < 10:
+            for a_ in x['args']:
+                if a_['k'] not in ('copy', 'move'):
+                    continue
+                l_ = a_['pl']['l']
+                for _ in range(4):
+                    ds_ = [d_ for d_ in fd.defs.get(l_, []) if not d_[2].get('dst', {}).get('p')]
+                    if len(ds_) != 1:
+                        break
+                    d_ = ds_[0]
+                    if d_[0] == 'assign' and d_[2]['rv']['k'] in ('use', 'ref'):
+                        src_ = d_[2]['rv'].get('pl') or d_[2]['rv'].get('op', {}).get('pl')
+                        if src_ is None or any(q['k'] != 'deref' for q in src_.get('p', [])):
+                            break
+                        l_ = src_['l']
+                        continue
+                    if d_[0] == 'call' and (d_[2].get('callee') or '').endswith(('::cmp', '::cmp_abs', '::partial_cmp', '::cmp0', '::total_cmp')) \
+                            and fd.body.local_ty(l_).endswith(('std::cmp::Ordering', 'std::option::Option<std::cmp::Ordering>')):
+                        y = d_[2]
+                        gc = Gate('call', y.get('callee'), [fd.read_op(o_) for o_ in y['args']], body.path, bi, x.get('line', line), callee=y.get('callee'), args=y['args'])
+                        other = [o_ for o_ in x['args'] if o_ is not a_]
+                        gc.const_ops = [str(c_[1]).split('::')[-1] for o_ in other for c_ in fd.read_op(o_) if c_[0] in ('c', 'a')]
+                        return gc
+                    break
         ops = []
         for a in x['args']:
             ops.append(fd.read_op(a))
